@@ -3,6 +3,7 @@
    (out-of-fuel is the error value EFuel, excluded by every "= Ok" hypothesis). *)
 From Sophia.C05 Require Import Proofs.
 From Sophia.C05 Require Import Related RelatedProofs.
+From Sophia.C05 Require Import Alias AliasProofs.
 From Coq Require Import Permutation Factorial.
 
 (* (1) the identifier map returned by relabel_with / used by normalize_with is a bijection from
@@ -231,6 +232,68 @@ Check (mp_witness_siblings :
 Check (mp_witness_all_orders :
   forallb (fun mask => res_eqb (mp_run mask) (mp_run 0)) [0;1;2;3;4;5;6;7;8;9;10;11;12;13;14;15] = true).
 
+(* (9) blank node labels taken from the algorithm's own name spaces (Alias.v): input labelled
+   c14n0 .. c14n(n-1) in any arrangement (a canonical document read back, then relabelled, edited,
+   merged, or produced with another hash function), b0.., a / z.  The model does not look at the
+   shape of the labels: a relabelling given as a table leaves the document and the identifier of
+   every node unchanged (no top-level tie, as in (6c)); the canonical document read back gives
+   itself, and so does the document read back under ANY rearrangement pi of its identifiers *)
+Check (alias_invariant : forall H fuel df pl m d b1 i1,
+  Forall wf_quad d -> Forall wf_quad (relabel_input m d) ->
+  inj_on (lbl_apply m) (bnodes d) ->
+  top_ties H (mkVar true true) fuel df pl d = false ->
+  impl_model H fuel df pl d = Ok (b1, i1) ->
+  exists i2, impl_model H fuel df pl (relabel_input m d) = Ok (b1, i2)).
+Check (alias_idmap_invariant : forall H fuel df pl m d qs i1,
+  Forall wf_quad d ->
+  inj_on (lbl_apply m) (bnodes d) ->
+  top_ties H (mkVar true true) fuel df pl d = false ->
+  relabel_with H (mkVar true true) fuel df pl d = Ok (qs, i1) ->
+  relabel_with H (mkVar true true) fuel df pl (relabel_input m d) = Ok (qs, rn (lbl_apply m) i1)).
+Check (id_of_inj_on : forall (issued : issuer) (B : list str),
+  NoDup (map snd issued) -> (forall b, In b B -> In b (map fst issued)) ->
+  inj_on (id_of issued) B).
+Check (reread_same_document : forall H fuel df pl d b1 i1,
+  Forall wf_quad d ->
+  top_ties H (mkVar true true) fuel df pl d = false ->
+  impl_model H fuel df pl d = Ok (b1, i1) ->
+  exists i2, impl_model H fuel df pl (map (rename_q (id_of i1)) d) = Ok (b1, i2)).
+Check (reread_relabelled_same_document : forall H fuel df pl pi d b1 i1,
+  Forall wf_quad d ->
+  (forall b, ~ In 32 b -> ~ In 32 (pi b)) ->
+  inj_on pi (map snd i1) ->
+  top_ties H (mkVar true true) fuel df pl d = false ->
+  impl_model H fuel df pl d = Ok (b1, i1) ->
+  exists i2, impl_model H fuel df pl (map (rename_q pi) (map (rename_q (id_of i1)) d)) = Ok (b1, i2)).
+(* the decidable side condition of the checker alias_ok is exact; its invariance clause follows
+   from implementation = model (it never alarms on an implementation that agrees with the model)
+   and pins the document of the relabelled dataset to the model's document of the original one *)
+Check (injective_on_sound : forall f l, injective_on f l = true -> inj_on f l).
+Check (injective_on_complete : forall f l, inj_on f l -> injective_on f l = true).
+Check (alias_clause_follows : forall tbl df pl d m code2 bytes2 idmap2 b1 i1,
+  Forall wf_quad d -> Forall wf_quad (relabel_input m d) ->
+  injective_on (lbl_apply m) (bnodes d) = true ->
+  top_ties (tbl_H tbl) (mkVar true true) (fuel_for d) (Some df) (Some pl) d = false ->
+  normalize_with (tbl_H tbl) (mkVar true true) (fuel_for d) (Some df) (Some pl) d = Ok (b1, i1) ->
+  impl_ok true tbl df pl (relabel_input m d) code2 bytes2 idmap2 = true ->
+  (code2 =? 0) && str_eqb b1 bytes2 = true).
+Check (alias_ok_bytes : forall tbl df pl d m shaped code2 bytes2 idmap2 b1 i1,
+  injective_on (lbl_apply m) (bnodes d) = true ->
+  top_ties (tbl_H tbl) (mkVar true true) (fuel_for d) (Some df) (Some pl) d = false ->
+  normalize_with (tbl_H tbl) (mkVar true true) (fuel_for d) (Some df) (Some pl) d = Ok (b1, i1) ->
+  alias_ok true tbl df pl d m shaped code2 bytes2 idmap2 = true ->
+  code2 = 0 /\ bytes2 = b1).
+(* non-vacuity: path4 under the labels c14n1, c14n0, c14n3, c14n2 (exactly c14n0..c14n3, not the
+   canonical arrangement): same document, identifier map not the identity *)
+Check (alias_w_shaped :
+  canonical_shaped (relabel_input alias_w path4) = true
+  /\ canonical_shaped path4 = false
+  /\ injective_on (lbl_apply alias_w) (bnodes path4) = true).
+Check (alias_w_same_document : exists b i1 i2,
+  impl_model toyH 20 (Some 1000) (Some 6) path4 = Ok (b, i1)
+  /\ impl_model toyH 20 (Some 1000) (Some 6) (relabel_input alias_w path4) = Ok (b, i2)
+  /\ id_of i2 (c14n_id 1) = c14n_id 0 /\ id_of i2 (c14n_id 0) = c14n_id 3).
+
 (* non-vacuity *)
 Example heap_123 : heap_perms [1;2;3] = [[1;2;3];[2;1;3];[3;1;2];[1;3;2];[2;3;1];[3;2;1]].
 Proof. reflexivity. Qed.
@@ -307,3 +370,14 @@ Print Assumptions hn_quads_order_independent.
 Print Assumptions hn_equiv_keys.
 Print Assumptions hn_equiv_lists.
 Print Assumptions mp_witness_all_orders.
+Print Assumptions alias_invariant.
+Print Assumptions alias_idmap_invariant.
+Print Assumptions id_of_inj_on.
+Print Assumptions reread_same_document.
+Print Assumptions reread_relabelled_same_document.
+Print Assumptions injective_on_sound.
+Print Assumptions injective_on_complete.
+Print Assumptions alias_clause_follows.
+Print Assumptions alias_ok_bytes.
+Print Assumptions alias_w_shaped.
+Print Assumptions alias_w_same_document.
